@@ -165,6 +165,33 @@ theorem mincircle_none_only_collinear (eps : α) (draw : Nat → Nat) (pts : Lis
     · exact h0
     · rw [hc] at e; cases e
 
+/-- the leaf circle of a boundary list is the smallest disc containing the (up to three) points it is built on -/
+theorem base_minimal {R : List (Pt α)} {c : Circ α} (h : base R = .circ c) (c' : Circ α) (h0 : 0 ≤ c'.r2)
+    (hc' : ∀ p ∈ R.take 3, Enc c' p) : c.r2 ≤ c'.r2 := by
+  match R, h, hc' with
+  | [], h, _ => simp only [base] at h; cases h; exact h0
+  | [a], h, _ => simp only [base] at h; cases h; exact h0
+  | [a, b], h, hc' =>
+    simp only [base] at h; cases h
+    exact circle2_minimal a b c' (hc' a (by simp)) (hc' b (by simp))
+  | a :: b :: d :: rest, h, hc' =>
+    simp only [base] at h
+    exact (circle_three_minimal h).2.2.2 c' (hc' a (by simp)) (hc' b (by simp)) (hc' d (by simp))
+
+/-- **Enclosing answers are minimal.** Whatever the random draws: if the circle returned by `minCircleOfPoints` encloses every
+input fix (the certificate `enc` of the driver), it is THE minimal enclosing circle — no disc containing the input has a
+smaller radius. So the only way `minCircle` errs, apart from `None`, is by NOT enclosing (`mincircle_not_enclosing`); the
+`findStopsGlobal` rewards computed from enclosing answers are those of the documented criterion (`stops_fit_in_circle`). -/
+theorem mincircle_enclosing_is_minimal (eps : α) (draw : Nat → Nat) (pts : List (Pt α)) (c : Circ α)
+    (h : (minCircleOfPoints eps draw pts).1 = .circ c) (henc : encloses c pts = true) :
+    (∀ p ∈ pts, Enc c p) ∧ ∀ c' : Circ α, 0 ≤ c'.r2 → (∀ p ∈ pts, Enc c' p) → c.r2 ≤ c'.r2 := by
+  refine ⟨fun p hp => ?_, fun c' h0 hc' => ?_⟩
+  · simp only [encloses, List.all_eq_true, decide_eq_true_eq] at henc
+    exact henc p hp
+  · obtain ⟨R', e, hR', _⟩ := mincircle_answer eps draw pts
+    rw [h] at e
+    exact base_minimal e.symm c' h0 (fun p hp => hc' p (hR' p (List.mem_of_mem_take hp)))
+
 /-- the certificate the driver evaluates on every answer (`enc`) is sound -/
 theorem encloses_sound (c : Circ α) (pts : List (Pt α)) (h : encloses c pts = true) : ∀ p ∈ pts, Enc c p := by
   intro p hp
